@@ -21,7 +21,8 @@ META = dict(
          'neighbours, SimplifyPath leaves no removable vertex; StripDuplicates, StripNearEqual, TranslatePath, Ellipse, Length, '
          'GetBounds satisfy their defining equations.',
     note='Coq theorems about index-based, bounds-checked models of the loops (coq/model/PathUtils.v), tied to the C++ by exact '
-         'comparison on all paths of <=5 (thorough <=6) points over a 4x4 lattice for every epsilon of the grid, open and closed, '
+         'comparison on all paths of <=5 (thorough <=6) points over a 4x4 lattice for every epsilon of the grid (quick tier: two epsilons '
+         'for SimplifyPath on 5-point paths), open and closed, '
          'plus seeded longer paths with |coordinates| up to 2^40; the property clauses themselves are evaluated on the '
          "implementation's outputs with predicates extracted from Coq. The models mirror clipper.h with the four C20 repairs "
          '(RDP end handling, SimplifyPath 3-point paths and epsilon^2 clamp, TrimCollinear open 2-point path).',
@@ -370,7 +371,10 @@ def run(ctx):
     nmax = 6 if thorough else 5
     for n in range(0, nmax + 1):
         before = res.lines
-        run_enum(ctx, exe, orc, 'TSR', n, res)
+        # quick tier, 5-point paths: SimplifyPath with the two-value epsilon grid {0.5, 2} (the full grid is enumerated for
+        # 0..4 points here and for 5 and 6 points in the thorough tier); TrimCollinear and RDP (whose first non-trivial
+        # length is 5) always with everything
+        run_enum(ctx, exe, orc, 'TsR' if (n == 5 and not thorough) else 'TSR', n, res)
         ctx.hist('exhaustive_lines_by_len', n, res.lines - before)
         ctx.log('exhaustive n=%d over %dx%d: %d lines, failing lines so far %d' % (n, L, L, res.lines - before, res.nfail))
 
@@ -392,9 +396,13 @@ def run(ctx):
         letters = ''.join(sorted(set({'trim': 'T', 'simp': 'S', 'rdp': 'R'}.get(c, '') for c in res.corr))) or ('TSR' if not pr['ok'] else '')
         if not thorough:
             res2 = Results()
+            if 'S' in letters:
+                ctx.log('search: exhaustive n=5 for S with the full epsilon grid')
+                run_enum(ctx, exe, orc, 'S', 5, res2)
             if letters:
-                ctx.log('search: exhaustive n=6 for %s' % letters)
-                run_enum(ctx, exe, orc, letters, 6, res2)
+                l6 = letters.replace('S', 's')      # 6-point paths: SimplifyPath with the two-value grid (full grid: thorough tier)
+                ctx.log('search: exhaustive n=6 for %s' % l6)
+                run_enum(ctx, exe, orc, l6, 6, res2)
             ctx.log('search: 40000 more random cases')
             run_requests(ctx, exe, orc, random_requests(ctx, 40000), res2)
             nprop += decide(ctx, res2)
@@ -406,7 +414,8 @@ def run(ctx):
 
     ctx.count('evaluations', res.lines)
     ctx.cov['distinct_nontrivial'] = res.nontrivial
-    ctx.cov['rule'] = ('every path of 0..%d points over the %dx%d lattice x {TrimCollinear open/closed, SimplifyPath eps in %s open/closed, '
+    ctx.cov['rule'] = ('every path of 0..%d points over the %dx%d lattice x {TrimCollinear open/closed, SimplifyPath eps in %s open/closed '
+                       '(quick tier, 5-point paths: eps in {0.5, 2}), '
                        'RamerDouglasPeucker same eps} (enumerated inside the harness, no duplicates), plus seeded random paths of 0..150 '
                        'points (collinear runs, repeated points, spikes, rings with first==last, scales 1..2^34*64) for all utilities and '
                        'random scalar cases for PerpendicDistFromLineSqrd/IsCollinear/Ellipse/double arithmetic; a line is non-trivial when the '
